@@ -55,13 +55,20 @@ def _add_classes_without_seeds(table):
             table[path] = {'ok': [], 'bad': list(borrowed), 'borrowed': True}
 
 
+_FOCUS = None       # set (in a forked child only) to restrict generators to some classes: see core.RunSeq
+_PATHS = None
+
+
 def class_paths():
     """Sorted class paths that still resolve to a class in the tree under test."""
-    out = []
-    for path in sorted(data()):
-        if resolve(path) is not None:
-            out.append(path)
-    return out
+    global _PATHS  # pylint: disable=global-statement
+    if _PATHS is None:
+        _PATHS = [path for path in sorted(data()) if resolve(path) is not None]
+    if _FOCUS:
+        focused = [path for path in _PATHS if path in _FOCUS]
+        if focused:
+            return focused
+    return list(_PATHS)
 
 
 def resolve(path):
@@ -157,6 +164,15 @@ def _compute_variants(path, per_seed):
                     continue
                 cls.parse_exact_size(data)
             except Exception:  # the edited object is not composable / not accepted back  # pylint: disable=broad-except
+                continue
+            if data not in out:
+                out.append(data)
+        # text inputs carrying a date: the same input with the date expressed in another zone
+        from simverif import wirefault
+        for data in wirefault.date_zone_variants(raw):
+            try:
+                cls.parse_exact_size(data)
+            except Exception:  # this spelling of the zone is not accepted  # pylint: disable=broad-except
                 continue
             if data not in out:
                 out.append(data)
